@@ -216,6 +216,16 @@ def dispatch(it, st, stack, fr, dest, callee, args, ret_bb):
         return out
     if re.search(r'as Index<.*>>::index$', c) and isinstance(deref(args[0]), Buf):
         raise Unsupported('sub-slicing of a body buffer: ' + c)
+    m = re.match(r'^<\{async fn body of (.+?)\(\)\} as (?:[\w:]+::)?Future>::poll$', c)
+    if m:
+        # `.await` of an async fn of this crate: its coroutine body is executed (same interpreter)
+        body = it.prog.funcs.get(m.group(1) + '::{closure#0}')
+        if body is None:
+            raise Unsupported('coroutine body of ' + m.group(1))
+        pin = args[0]
+        if isinstance(pin, Ref):
+            pin = Agg('Pin', 'Pin', 0, [pin])
+        return push_call(it, stack, fr, dest, body, [pin, args[1]], ret_bb)
     if c.endswith('as StreamExt>::next'):
         return Opaque('NextFuture')
     if c.endswith('as futures::Future>::poll') or c.endswith('as Future>::poll'):
@@ -350,12 +360,25 @@ def dispatch(it, st, stack, fr, dest, callee, args, ret_bb):
                 stack.append((cands[0], nfr, 'bb0', 0))
                 return 'PUSHED'
         raise Unsupported('Option::filter with %r' % (f,))
+    if re.search(r'Option::<Result<.*>>::transpose$', c):
+        o = args[0]
+        if o.variant == 'None':
+            return ok(NONE())
+        r = o.fields[0].v
+        return ok(some(r.fields[0].v)) if r.variant == 'Ok' else err(r.fields[0].v)
+    if re.search(r'Option::<(actix_web::web::|bytes::)?Bytes>::unwrap_or_default$', c):
+        o = args[0]
+        return o.fields[0].v if o.variant == 'Some' else Buf()
     if re.search(r'Option::<.*>::is_none$', c):
         return deref(args[0]).variant == 'None'
     if re.search(r'Option::<.*>::is_some$', c):
         return deref(args[0]).variant == 'Some'
     if re.search(r'Box<dyn .*StorageTxn.*> as DerefMut>::deref_mut$', c) or 'as DerefMut>::deref_mut' in c:
         return args[0]
+    # any other function DEFINED IN THIS CRATE (a helper a refactoring pulled out): inlined
+    name = re.sub(r'::<[^<>]*>$', '', c)
+    if name in it.prog.funcs and not name.endswith('::service'):
+        return push_call(it, stack, fr, dest, it.prog.funcs[name], args, ret_bb)
     raise Unsupported('call to ' + c)
 
 
